@@ -3,6 +3,7 @@ From Coq Require Import Bool ZArith List.
 From K Require Import Lib.Types Model.Machine Model.Alu Model.Exec Spec.ISA Proofs.FlagProofs Proofs.BitProofs.
 From K Require Import Model.Bus Model.Cost Model.Addressing Proofs.RegProofs Proofs.StepProofs.
 From K Require Import Model.Cost Model.Addressing Model.Exec Proofs.MemProofs Proofs.StepProofs Proofs.CtlProofs Proofs.StepRefines.
+From K Require Import Proofs.BitMemProofs.
 Open Scope Z_scope.
 
 (* all 14 operations x 256 operand values x 8 bit numbers x 256 CCR values: the shift/mask code of the
@@ -57,8 +58,37 @@ Theorem step_bit_register :
     exists s', sem_ref (IBit o b (BTReg rd)) 2 s = Some s' /\ step s = Ok n (set_opc (pc s) s').
 Proof. exact step_bit_reg_proof. Qed.
 
+(* ---- memory operands (@ERd, @aa:8), immediate or register bit number: the handler = the reference, for every state ----
+   (op: first word, op2: the operation word after the 7C/7D/7E/7F prefix; s: after both words have been fetched) *)
+Theorem bit_memory_register_indirect :
+  forall o op op2 (regsrc : bool) s,
+    cpu_ok s -> bus_bytes_ok s -> 0 <= nib op 3 < 8 ->
+    let a := ea_addr SB s (EInd (nib op 3)) in
+    let k := if regsrc then reg8 s (nib op2 3) mod 8 else Z.land (nib op2 3) 7 in
+    run_tag (if regsrc then TBitErnRn o else TBitErnImm o) op op2 0 s = then_charge (bit_mem_ref o a k s) (bit_charge o a).
+Proof. exact bit_ern_refines_proof. Qed.
+
+Theorem bit_memory_absolute8 :
+  forall o op op2 (regsrc : bool) s,
+    cpu_ok s -> bus_bytes_ok s -> 0 <= lo8 op < 256 ->
+    let a := abs8 (lo8 op) in
+    let k := if regsrc then reg8 s (nib op2 3) mod 8 else Z.land (nib op2 3) 7 in
+    run_tag (if regsrc then TBitAbsRn o else TBitAbsImm o) op op2 0 s = then_charge (bit_mem_ref o a k s) (bit_charge o a).
+Proof. exact bit_abs_refines_proof. Qed.
+
+(* bit_mem_ref is the reference semantics of these instructions up to the PC update *)
+Theorem bit_memory_reference :
+  forall o b e len s,
+    sem_ref (IBit o b (BTMem e)) len s =
+    option_map (with_pc (pc s + len))
+      (bit_mem_ref o (ea_addr SB s e) (match b with BImm k => k | BReg rn => reg8 s rn mod 8 end) s).
+Proof. exact bit_mem_ref_sem. Qed.
+
 Print Assumptions bit_kernel.
 Print Assumptions exactly_the_addressed_bit.
 Print Assumptions only_the_named_flag.
 Print Assumptions bit_register_refines.
 Print Assumptions step_bit_register.
+Print Assumptions bit_memory_register_indirect.
+Print Assumptions bit_memory_absolute8.
+Print Assumptions bit_memory_reference.
